@@ -3,12 +3,21 @@
 //! The harness owns the completion order of the per-tile tasks: every callback handed to
 //! `map_blob_parallel`, `filter_map_blob_parallel` and `from_coord_iter_parallel` announces itself
 //! and then blocks on its own gate. The oracle thread is consumer and controller at once: it polls
-//! the consuming future by hand (own waker), and whenever the future is pending and every spawned
-//! task has arrived at its gate it opens the gate of the blocked task with the smallest generated
-//! priority, waits for the wake-up that task's completion causes, and polls again. With one release
-//! per poll cycle the order in which the unordered buffer sees the tasks complete is exactly the
-//! generated order. Nothing here depends on timing, except the 20 s no-progress limit that turns a
-//! hang into exit 2.
+//! the consuming future by hand (own waker, runtime context entered so that the operators can
+//! `tokio::spawn`), and whenever the future is pending and every spawned task has arrived at its
+//! gate it opens the gate of the waiting task with the smallest generated priority, waits until the
+//! runtime reports that task as complete (callback returned, result stored, join handle notified,
+//! task released: `num_alive_tasks` = tasks still inside a callback) and polls again. With one
+//! release per poll cycle the order in which an unordered buffer sees its tasks complete is exactly
+//! the generated order; the exhaustive phase verifies that and ends with exit 2 otherwise.
+//! The controller does not wait for wake-ups: the join handle of a task that the buffer has not
+//! polled yet (or whose buffer is not polled because the next operator's window is full) wakes
+//! nobody. Nothing depends on timing, except the 20 s no-progress limit that turns a hang into
+//! exit 2 (`MACHINERY-ERROR`, never a violation).
+//!
+//! Where the spawned tasks are counted: at the point where items enter an operator (an `inspect`
+//! in front of it, or the coordinate iterator), which runs on the polling thread; so after a poll
+//! the number of tasks that must show up at the gates is known without assuming a window size.
 
 use futures::stream::StreamExt;
 use proptest::prelude::*;
@@ -1121,6 +1130,8 @@ fn main() {
 	check.assume("the order of the outputs of the parallel operators is not specified (buffer_unordered) and is not asserted; only a sequential stream fed to for_each_buffered must arrive in input order");
 	check.assume("for_each_buffered(0): only 'every item once' is asserted (the chunk-size bound is asserted for sizes >= 1)");
 	check.assume("callbacks that panic (JoinError paths) are outside the statement and not generated");
+	check.assume("trusted base of the schedule control: tokio removes a task from the runtime's alive count only after its result is stored and its join handle notified; if that were not so the realised orders would differ from the requested ones (detected in the exhaustive phase -> exit 2), the oracle itself does not depend on it");
+	check.assume("a tree that changes the number of tasks in flight can make the exhaustive phase unrealisable (window < n) or exhaust the runtime's workers (window > 2*num_cpus+2); both end as exit 2, not as a violation");
 	check.extra.insert("num_cpus".into(), serde_json::json!(cpus));
 	check.extra.insert("runtime_workers".into(), serde_json::json!(runtime_workers()));
 	vt::engine::watchdog(check.cases(900, 5400) as u64);
